@@ -30,7 +30,7 @@ RULE = ('cases are (response kind, method, header set) over a scenario applicati
         'distinct by hash of the case')
 ASSUMPTIONS = ['input-side assertions of the validator (how Werkzeug reads wsgi.input) are not attributed to clastic',
                'for non-unique middleware types the number of wrapper applications is not fixed by the statement (O5); order is checked']
-REQUIRED_REACH = ['validated:plain', 'validated:stream', 'validated:rendered', 'validated:static', 'validated:staticroute',
+REQUIRED_REACH = ['accept-charset-sent', 'validated:plain', 'validated:stream', 'validated:rendered', 'validated:static', 'validated:staticroute',
                   'validated:304', 'validated:redirect', 'validated:404', 'validated:405', 'validated:500', 'validated:debug-500',
                   'validated:debug-404', 'validated:meta', 'validated:gzip', 'validated:cache', 'validated:head', 'validated:post',
                   'files-opened', 'files-closed-after-close', 'wrapper-stacks:depth>=2', 'wrapper-stacks:embedded',
@@ -131,6 +131,12 @@ class Scenario(object):
             # short tuples with numbers in them are data like any other sequence
             Route('/pair/<which>', lambda which: {'a': ('apples', 3), 'b': (3, 4), 'c': ('balance', -12), 'd': ('a', 7, None),
                                                   'e': ('total', 2, [('x', 'y')]), 'f': (7, 200), 'g': ('gone', 404)}[which], render_basic),
+            # contexts that are not sized containers: one-shot iterators over anything (numbers, records, text, bytes), numbers,
+            # None, arbitrary objects - whatever the renderer makes of them, the body is bytes
+            Route('/iter/<which>', lambda which: {'ints': (i for i in range(5)), 'mapped': map(float, [1, 2]), 'records': iter([{'id': 1}, {'id': 2}]),
+                                                  'texts': (t for t in ['a', 'b']), 'bytes': iter([b'x', b'y']), 'empty': iter(()), 'mixed': iter(['t', 1, None, b'b']),
+                                                  'range': iter(range(3)), 'float': 2.5, 'none': None, 'object': object(), 'zip': zip('ab', [1, 2]),
+                                                  'enumerate': enumerate(['x'])}[which], render_basic),
             # results that are callable without being responses: a forgotten pair of parentheses, a class instead of an instance
             Route('/retfunc', lambda: boom), Route('/retclass', lambda: Response), Route('/retlambda', lambda: (lambda environ, start_response: [b'x'])),
             # HTTP errors with codes outside any registry and messages/details that are not header material
@@ -158,6 +164,11 @@ REQUESTS = [
     ('stream', 'GET', '/stream', '', {}, b'', False),
     ('rendered', 'GET', '/rendered', '', {}, b'', False), ('rendered', 'GET', '/rendered', 'format=html', {}, b'', False),
     ('rendered', 'GET', '/rendered', '', {'Accept': 'text/html'}, b'', False), ('rendered', 'GET', '/json', '', {}, b'', False),
+    ('rendered', 'GET', '/iter/ints', '', {}, b'', False), ('rendered', 'GET', '/iter/mapped', '', {}, b'', False), ('rendered', 'GET', '/iter/records', '', {'Accept': 'text/html'}, b'', False),
+    ('rendered', 'GET', '/iter/texts', '', {}, b'', False), ('rendered', 'POST', '/iter/bytes', '', {}, b'', False), ('rendered', 'GET', '/iter/empty', '', {}, b'', False),
+    ('rendered', 'GET', '/iter/mixed', 'format=json', {}, b'', False), ('rendered', 'GET', '/iter/range', '', {}, b'', False), ('rendered', 'GET', '/iter/float', '', {}, b'', False),
+    ('rendered', 'GET', '/iter/none', '', {}, b'', False), ('rendered', 'GET', '/iter/object', '', {}, b'', False), ('rendered', 'HEAD', '/iter/ints', '', {}, b'', False),
+    ('rendered', 'GET', '/iter/zip', '', {}, b'', False), ('rendered', 'GET', '/iter/enumerate', '', {'Accept': 'application/json'}, b'', False),
     ('static', 'GET', '/static/a.txt', '', {}, b'', False), ('static', 'GET', '/static/b.bin', '', {}, b'', False),
     ('static', 'GET', '/static/empty', '', {}, b'', False), ('static', 'GET', '/static/sub/c.html', '', {}, b'', False),
     ('static', 'GET', '/static/a.txt', '', {'X-File-Wrapper': '1'}, b'', False),
@@ -545,7 +556,7 @@ def judge_siblings(sh, case, specs, outer, inner, inner2, got, ex):
 def judge_reroute(sh, rng):
     from clastic import Application, Route, RerouteWSGI, Response, Middleware
     how = rng.pick(['raised', 'endpoint', 'raised-in-middleware', 'raised-in-with-block', 'endpoint-below-with-block',
-                    'endpoint-below-try-finally'])
+                    'endpoint-below-try-finally', 'endpoint-with-render', 'endpoint-with-render'])
     status = rng.pick(['200 OK', '201 Created', '404 Not Found', '418 I am a teapot', '302 Found', '500 Boom'])
     hdrs = [('Content-Type', rng.pick(['text/plain', 'application/x-verif; v=1'])), ('X-Target', 'yes'),
             ('X-Dup', 'a'), ('X-Dup', 'b')]
@@ -592,6 +603,20 @@ def judge_reroute(sh, rng):
         app = Application([Route(pattern, lambda x: ep())], slash_mode=mode)
     elif how == 'endpoint':
         app = Application([Route(pattern, RerouteWSGI(target))], slash_mode=mode)
+    elif how == 'endpoint-with-render':
+        # the route has a render side too (a callable, or an argument the application's render factory interprets, also
+        # through an embedding): a reroute is not a context - the target answers, nothing is rendered
+        from clastic import render_basic, render_json
+        rk = rng.pick(['basic', 'json', 'lambda', 'factory', 'embedded-factory'])
+        sh.hit('reroute:route-with-render:' + rk)
+        if rk in ('factory', 'embedded-factory'):
+            def factory(arg):
+                return lambda context: Response('rendered %s %r' % (arg, context))
+            inner = Application([Route(pattern, RerouteWSGI(target), 'page.html')], render_factory=factory, slash_mode=mode)
+            app = inner if rk == 'factory' else Application([('/', inner)], render_factory=factory, slash_mode=mode)
+        else:
+            rn = {'basic': render_basic, 'json': render_json, 'lambda': (lambda context: Response('rendered %r' % (context,)))}[rk]
+            app = Application([Route(pattern, RerouteWSGI(target), rn)], slash_mode=mode)
     elif how == 'raised-in-with-block':
         # application code commonly runs inside context managers (transactions, timers, locks): the exception that
         # carries the reroute passes through their __exit__ on its way out
@@ -670,7 +695,7 @@ def judge_reroute(sh, rng):
 
 
 def plan(tier, seed):
-    return [{'label': 'scn-%d' % i, 'index': i, 'rounds': 1 if tier == 'quick' else 40,
+    return [{'label': 'scn-%d' % i, 'index': i, 'rounds': 3 if tier == 'quick' else 40,
              'wrappers': 120 if tier == 'quick' else 6000, 'reroutes': 60 if tier == 'quick' else 3000, 'timeout': 7200}
             for i in range(NSHARDS)]
 
@@ -692,6 +717,18 @@ def run_shard(sh, spec):
                         h.setdefault('Accept-Encoding', rng.pick(['gzip', 'identity', 'gzip;q=0', 'br, gzip']))
                     if rng.chance(0.1):
                         h.setdefault('If-None-Match', '"abc"')
+                    # what a client says about charsets, languages and itself - known names, unknown ones, junk
+                    if rng.chance(0.3):
+                        h.setdefault('Accept-Charset', rng.pick(['utf-8', 'iso-8859-1', 'unicode-1-1', 'x-user-defined', 'utf-8;q=0.5, x-sjis',
+                                                                 '*', 'rot13', 'base64, utf-8;q=0.1', 'undefined', ';;,', 'utf-16', 'ascii']))
+                        sh.hit('accept-charset-sent')
+                    if rng.chance(0.15):
+                        h.setdefault('Accept-Language', rng.pick(['fr-CH, fr;q=0.9, en;q=0.8', 'zz', 'x-klingon', '*;q=0', ',,']))
+                    if rng.chance(0.1):
+                        h.setdefault('User-Agent', rng.pick(['caf\xe9-agent/1.0', 'Mozilla/5.0 (\xe6\x97\xa5)', '']))
+                    if rng.chance(0.1) and method in ('POST', 'PUT'):
+                        h.setdefault('Content-Type', rng.pick(['text/plain; charset=x-unknown', 'application/x-www-form-urlencoded; charset=utf-16',
+                                                               'multipart/form-data', 'application/json; charset=']))
                 judge_exchange(sh, sc, kind, method, path, query, h, body, debug)
         for _ in range(spec['wrappers']):
             judge_wrappers(sh, wrapper_case(rng))
